@@ -255,6 +255,33 @@ func (c13Engine) Exec(t *testing.T, cc any) *simrt.Result {
 		total.Stats = r.Stats
 		total.Stats.States = nil
 	}
+	merge := func(r *simrt.Result, name string) {
+		for i := range r.Violations {
+			r.Violations[i].Msg = fmt.Sprintf("[after the whole history of %d messages, %s] %s", len(c.History), name, r.Violations[i].Msg)
+		}
+		total.Violations = append(total.Violations, r.Violations...)
+		if r.Harness != "" && total.Harness == "" {
+			total.Harness, total.Trace = r.Harness, r.Trace
+		}
+		if len(r.Violations) > 0 && total.Trace == nil {
+			total.Trace = r.Trace
+		}
+		total.Stats.Steps += r.Stats.Steps
+		total.Stats.Switches += r.Stats.Switches
+		total.Stats.SimTime += r.Stats.SimTime
+		for k, v := range r.Stats.Faults {
+			for i := int64(0); i < v; i++ {
+				total.Stats.Fault(k)
+			}
+		}
+	}
+	for _, how := range []string{"ws-close", "ws-reset", "ws-server-cancel"} {
+		if (c.OnlyMode == "" && c.OnlyCut == 0) || c.OnlyMode == how {
+			if total.Harness == "" {
+				merge(wsCutRun(t, c, how), how)
+			}
+		}
+	}
 	modes := []c13Mode{{"cancel", false}, {"cancel", true}, {"closerecv", false}}
 	first := true
 	for cut := 0; cut <= len(c.History); cut++ {
